@@ -187,6 +187,10 @@ def gen_regex(rnd, depth=0):
     return atom + q
 
 
+LINE_SUBJECTS = ["a\nc", "\n", "a\n", "\na", "ab\ncd", "a\r\nc", "a\rc", "a\tc", "a\u2028c", "a\x0bc", "abc", "", "key=1\nvalue=2", "\n\n"]
+LINE_PATTERNS = [
+    "a.c", "^.$", ".", ".*", "^.*$", "a.*c", "a.?c", ".+", "^.+$", "a.{1}c", "[^a]", "a[^b]c", "a\nc", "a\\nc", "(?s)a.c", "(?s)^.$", "^a$", "a$", "^c", "c$", "(?m)^c", "key=.*value", "^$", "a.", ".c", "(?i)A.C", "\\n",
+]
 INVALID_RE = ["(", ")", "[a", "*a", "a{2,1}", "(a", "a)", "+", "?", "[", "(?P<n", "a**b(", "\\"]
 
 
@@ -196,13 +200,26 @@ def regex_checks(acc, ctx, n):
         pat = gen_regex(rnd)
         if rnd.random() < 0.3:
             pat = rnd.choice(["^", ""]) + pat + rnd.choice(["$", ""])
-        text = "".join(rnd.choice("abcx.") for _ in range(rnd.randint(0, 6)))
+        text = "".join(rnd.choice("abcx." if j % 4 else "abcx.\n\n") for _ in range(rnd.randint(0, 6)))
         acc.hook("regex")
         env = {"s": ("string", text), "p": ("string", pat)}
         node = Node("meth", "bool", "matches", Node("var", "string", "s"), Node("var", "string", "p"))
         check_program(acc, node, env, "matches-bound", cached=True)
         if j % 3 == 0:
             check_program(acc, Node("meth", "bool", "matches", Node("lit", "string", env["s"]), Node("lit", "string", env["p"])), {}, "matches-literal")
+    # line feeds and other separators in the subject against `.`, anchors, negated classes and inline flags (deterministic)
+    j = 0
+    for text in LINE_SUBJECTS:
+        for pat in LINE_PATTERNS:
+            j += 1
+            if not ctx.mine(j):
+                continue
+            acc.hook("regex")
+            acc.hook("regex-line-feed")
+            env = {"s": ("string", text), "p": ("string", pat)}
+            check_program(acc, Node("meth", "bool", "matches", Node("var", "string", "s"), Node("var", "string", "p")), env, "matches-lines", cached=True)
+            if j % 2:
+                check_program(acc, Node("call", "bool", "matches", Node("lit", "string", env["s"]), Node("lit", "string", env["p"])), {}, "matches-lines")
     for j, pat in enumerate(INVALID_RE):
         if not ctx.mine(j):
             continue
